@@ -366,18 +366,29 @@ class EstimCase:
         if tol is None:
             self.cov.inc('patches_unjudged')
             return
+        # difference quotients on tiny patches lose digits to cancellation
+        # (in the code under test and in the reference alike): relative
+        # rounding of order eps / (h * smallest node gap); the tolerance is
+        # never tighter than that
+        if which == 'space':
+            h = min(e.h_x, nbr.h_x) / max(1.0, self.L / 4)
+            tol = tol + 2e-12 / h
+        elif which == 'time':
+            h = min(e.h_t, nbr.h_t)
+            tol = tol + 2e-12 / h
         ref = err = None
         for (lo, hi) in ((10, 16), (16, 24), (24, 36)):
             a, _ = fn(lo)
             b, _ = fn(hi)
             ref, err = b, abs(a - b)
-            if err <= 0.05 * tol * abs(b) + 1e-15:
+            if err <= 0.05 * tol * abs(b) + 1e-15 * min(1.0, e.h_t * e.h_x):
                 break
         else:
             self.cov.inc('unresolved')
             return
         self.cov.inc('patches_judged.' + which + '.' + kind)
-        if abs(code - ref) > tol * abs(ref) + 1e-13:
+        floor = 1e-13 * min(1.0, e.h_t * e.h_x)
+        if abs(code - ref) > tol * abs(ref) + floor:
             self.viol(
                 'patch-value', site + '/' + kind, {
                     'elem': repr(e),
@@ -487,6 +498,10 @@ class EstimCase:
                        key=lambda e: (e.time_interval, e.space_interval))
         by_idx = {e.glob_idx: e for e in self.mesh.leaf_elements}
         idx = []
+        if op.get('smallest'):
+            order = sorted(range(len(elems)),
+                           key=lambda q: (elems[q].h_x * elems[q].h_t, q))
+            idx = order[:op['smallest']]
         for i in op['elems']:
             if i % len(elems) not in idx:
                 idx.append(i % len(elems))
@@ -596,8 +611,14 @@ def gen_run(seed, params):
     seams.install()
     rng = stream(seed, 'workload')
     curve = rng.choice(params.get('curves', CLOSED))
+    time = None
+    if rng.random() < params.get('p_time_grid', 0.12):
+        time = rng.choice([[0.0, 0.25, 1.0], [0.0, 0.5, 0.75, 1.5],
+                           [0.0, 0.3, 1.0]])
+    graded = rng.random() < params.get('p_graded', 0.12)
     hist, n = gen_history(rng, curve, rng.choice(params.get(
-        'sizes', [4, 8, 12, 16, 24])))
+        'sizes', [4, 8, 12, 16, 24])), graded=graded and rng.choice(
+            [True, 'deep']), time=time)
     style = rng.random()
     odd = [1, 3, 5, 7, 9, 11, 13, 15, 17, 19]
     if style < 0.45:
@@ -631,6 +652,9 @@ def gen_run(seed, params):
                 'elems': [rng.randrange(1 << 16)
                           for _ in range(params.get('n_direct', 3))]
             })
+            if graded:
+                # look at the smallest elements of a graded mesh
+                ops[-1]['smallest'] = rng.randint(1, 3)
         else:
             ops.append({
                 'op': 'refine',
@@ -641,8 +665,11 @@ def gen_run(seed, params):
                     'axis': rng.choice([0, 1])
                 }]
             })
-    return {'curve': curve, 'history': hist, 'orders': orders,
-            'residual': residual, 'ops': ops}
+    run = {'curve': curve, 'history': hist, 'orders': orders,
+           'residual': residual, 'ops': ops}
+    if time is not None:
+        run['time'] = time
+    return run
 
 
 def shrink_run(run):
